@@ -69,6 +69,7 @@ type harness struct {
 	apis   map[DefaultCost]*apiWorld
 
 	skippedNotes int
+	reported     map[string]int
 }
 
 func goVars(vars map[string]VarVal) map[string]interface{} {
@@ -373,6 +374,12 @@ func (h *harness) evalRequest(c Case, lim *hx.Rand, record bool) (*failure, Case
 			if p.stats.CtxReads > 0 {
 				h.run.Count("shape:context-read")
 			}
+			if p.stats.DupKeys > 0 {
+				h.run.Count("shape:repeated-response-key-in-one-selection-set")
+			}
+			if p.stats.DupUnder > 0 {
+				h.run.Count("shape:repeated-response-key-with-own-sub-selections")
+			}
 			h.run.Count(fmt.Sprintf("shape:fragment-expansions=%s", bucket(p.stats.Expansions)))
 			h.run.Count(fmt.Sprintf("shape:charged-fields=%s", bucket(p.stats.Charged)))
 		}
@@ -441,8 +448,13 @@ func bucket(n int) string {
 
 // report turns a failure into a violation.
 func (h *harness) report(f *failure, c Case) {
+	h.reported[f.Kind]++
 	h.run.Violate(f.Kind, f.What, "", f.Kind == "correspondence", c)
 }
+
+// worthShrinking: hx keeps three violations per kind; shrinking the hundreds that a broken rule
+// produces after those would only burn the time budget.
+func (h *harness) worthShrinking(f *failure) bool { return h.reported[f.Kind] < 3 }
 
 // ---- generated documents ------------------------------------------------------------------------------
 
@@ -514,7 +526,10 @@ func (h *harness) evalGenerated(gd *GDoc, vars map[string]VarVal, dflt DefaultCo
 		c := base
 		c.OpName = name
 		if f, fc := h.evalRequest(c, r, true); f != nil {
-			h.report(h.shrink(gd, fc, f))
+			if h.worthShrinking(f) {
+				f, fc = h.shrink(gd, fc, f)
+			}
+			h.report(f, fc)
 			return
 		}
 	}
@@ -667,6 +682,14 @@ func (h *harness) handWritten() {
 		{Query: `{ a: n { ...F } b: n { ...F } c: n { d: n { ...F } } } fragment F on N { x: v(r: 3) }`, Default: DefaultCost{R: 1}},
 		// a fragment that shares its name with the requested operation (separate namespaces)
 		{Query: `query A { x: n(m: 2) { ...A } } fragment A on N { y: v(r: 3) ...B } fragment B on N { z2: v(r: 1) }`, Default: DefaultCost{R: 1}},
+		// the same response key several times in ONE selection set (validation allows it for the same field
+		// with identical arguments; the executor merges them; every selection is still charged)
+		{Query: `{ one: v(r: 1) one: v(r: 1) }`, Default: DefaultCost{R: 1}},
+		{Query: `{ z z p p cr }`, Default: DefaultCost{R: 3}},
+		{Query: `{ o: n(r: 1, m: 10) { a: v(r: 2) } o: n(r: 1, m: 10) { b: v(r: 3) } }`, Default: DefaultCost{R: 1}},
+		{Query: `{ n(m: 10, c: 4) { x: cr } q: v(r: 1) n(m: 10, c: 4) { y: v(r: 5) cm { w: v(r: 7) } } n(m: 10, c: 4) { x: cr } }`, Default: DefaultCost{R: 1}},
+		{Query: `{ o: n(m: 3) { i1: v(r: 2) i1: v(r: 2) ... on N { i1: v(r: 2) } ...F } o: n(m: 3) { ...F pn { p } pn { p z } } } fragment F on N { i1: v(r: 2) cm { u: v(r: 1) } cm { u2: v(r: 1) } }`, Default: DefaultCost{R: 2, M: 2}},
+		{Query: `query Q($m: Big) { k(first: 5) { e: cm { v1: v(r: 1) } } k(first: 5) { e: cm { v2: v(r: 2) } e: cm { v3: v(r: $m) } } }`, Vars: map[string]VarVal{"m": {"int", "9"}}, Default: DefaultCost{}},
 		// operation choice
 		{Query: `query A { a: v(r: 3) } query B { b: v(r: 5) } query C { c: n(m: 4) { d: v(r: 2) } }`, Default: DefaultCost{R: 1}},
 		// default cost with a multiplier and a context
@@ -737,7 +760,7 @@ func (h *harness) replayCase(c Case, verbose bool) *failure {
 
 func main() {
 	run := hx.Init("C14")
-	h := &harness{run: run, schema: buildSchema(), apis: map[DefaultCost]*apiWorld{}}
+	h := &harness{run: run, schema: buildSchema(), apis: map[DefaultCost]*apiWorld{}, reported: map[string]int{}}
 	if run.ModelPath != "" {
 		m, err := hx.StartModel(run.ModelPath)
 		if err != nil {
